@@ -3,7 +3,7 @@ import itertools
 
 from hypothesis import strategies as st
 
-from vlib.runner import Violation, call
+from vlib.runner import Violation, call, clone_point
 from checks.c06 import positive, close, compare, normalised
 
 PID = "C07"
@@ -129,6 +129,7 @@ def check(case):
     else:
         p[JN.JOINT_DEGREE_TYPE] = typ if case["path"] == "dispatch_enum" else typ.value
         obj = call("dispatch", JointDegreeDistribution.load_joint_degree, p)
+    obj = clone_point(obj, case)
     if not isinstance(obj, cls):
         raise Violation("dispatch-class", f"built {type(obj).__name__}")
     jdd = obj.jdd
